@@ -283,3 +283,16 @@ VARIANTS += [
  V("c42-l1-snapshot-count-unlocked", "C42", "C42.L1", "db.go",
    "	d.mu.snapshots.pushBack(s)\n	d.mu.Unlock()\n	return s", "	d.mu.Unlock()\n	d.mu.snapshots.pushBack(s)\n	return s"),
 ]
+
+VARIANTS += [
+ V("c08-t1-rangekeydelete-falls-through", "C08", "C08.T1", "internal/rangekey/coalesce.go",
+   "		case base.InternalKeyKindRangeKeyDelete:\n			// Nothing to do.\n		default:\n			return base.CorruptionErrorf(\"pebble: unrecognized range key kind %s\", keys[i].Kind())\n		}", "		default:\n			// Nothing to do.\n		}"),
+ V("c08-t2-delrange-into-rangekey-skiplist", "C08", "C08.T2", "mem_table.go",
+   "		case InternalKeyKindRangeDelete:\n			err = m.rangeDelSkl.Add(ikey, value)", "		case InternalKeyKindRangeDelete:\n			err = m.rangeKeySkl.Add(ikey, value)"),
+ V("c17-g1-zero-seqnum-in-any-stripe", "C17", "C17.G1", "internal/compact/iterator.go",
+   "	return i.cfg.IsBottommostDataLayer && snapshotIdx == 0", "	return i.cfg.IsBottommostDataLayer"),
+ V("c17-g2-elide-in-non-last-stripe", "C17", "C17.G2", "internal/compact/iterator.go",
+   "				if i.curSnapshotIdx == 0 {\n					// If we're at the last snapshot stripe and the tombstone", "				if i.curSnapshotIdx >= 0 {\n					// If we're at the last snapshot stripe and the tombstone"),
+ V("c45-p1-reintroduce-F5", "C45", "C45.P1", "scan_internal.go",
+   "		return nil, errors.CombineErrors(err, i.Close())\n	}\n\n	// For internal iterators, we skip", "		return nil, err\n	}\n\n	// For internal iterators, we skip"),
+]
